@@ -1015,4 +1015,78 @@ Proof.
       [exact E | ss; rewrite ztake_zdrop_app; reflexivity | reflexivity | exact Hbp |].
     apply C_skip; ss; auto. rewrite Hst. reflexivity.
 Qed.
+
+(* ---- one iteration of the stage machine ---- *)
+Lemma iter_chunk o p O l :
+  CInv p O (l_s l) -> wf (l_s l) -> bytes_ok (l_src l) = true -> 0 <= l_cap l -> zlen O < 18446744073709551616 ->
+  stepr p O l (iter bdec o l).
+Proof.
+  intros C (Hoob & Ha & Hi) Hb Hc HO. unfold iter. unfold stage_inv in Hi.
+  destruct C as [Hst -> -> Hrem Hh Hsk | Hst -> Hrem Hh Hsk Hp Hbp | d maxb Hst -> B HK | d maxb Hst B HK
+                | d maxb t Hst B Ht Hbt HK | d maxb acc0 data1 Hst -> B Htg Hm Hx HK
+                | d maxb acc0 data t Hst -> B EB Hd Hx Ht Hbt HK | d maxb n Hst B Htg Hn HK
+                | d maxb n t Hst B Htg Hn Ht Hbt HK | d maxb acc0 Hst HOe B Hm HK | d maxb Hst B HK
+                | d maxb t Hst B EC ER Ht Hbt HK | Hst -> Hp4 Hmg]; try rewrite Hst in *.
+  - apply c_getFrameHeader; auto.
+  - destruct Hi as (I1 & I2 & I3). apply c_storeFrameHeader; auto.
+  - apply (c_init d maxb); auto.
+  - apply (c_getBlockHeader d maxb); auto.
+  - destruct Hi as (_ & I1). apply (c_storeBlockHeader d maxb _ _ _ t); auto.
+  - apply (c_copyDirect o d maxb); auto.
+  - destruct Hi as (_ & I1). apply (c_getBlockChecksum d maxb _ _ _ t); auto.
+  - apply (c_getCBlock o d maxb _ _ _ n); auto.
+  - destruct Hi as (_ & I1 & I2). apply (c_storeCBlock o d maxb _ _ _ n t); auto.
+  - destruct Hi as (_ & I1). apply (c_flushOut o d maxb _ _ acc0); auto.
+  - apply (c_getSuffix d maxb); auto.
+  - destruct Hi as (_ & I1). apply (c_storeSuffix d maxb _ _ _ t); auto.
+  - assert (SK : skp p) by (split; assumption).
+    destruct (d_stage (l_s l)) eqn:E; try discriminate Hst.
+    + apply c_getSFrameSize; auto.
+    + destruct Hi as (I1 & I2). apply c_storeSFrameSize; auto.
+    + apply c_skipSkippable; auto.
+Qed.
+
+(* ---- one call: the loop ---- *)
+Definition runr (p O : list byte) (l l' : lst) (f : fin) : Prop :=
+  match f with
+  | FStop h => exists x y, l_src l = x ++ l_src l' /\ l_out l' = l_out l ++ y /\ bytes_ok x = true /\
+                           if h =? 0 then Fin (p ++ x) (O ++ y) else CInv (p ++ x) (O ++ y) (l_s l')
+  | _ => True
+  end.
+
+Lemma run_chunk o : forall fuel l l' f p O,
+  CInv p O (l_s l) -> wf (l_s l) -> bytes_ok (l_src l) = true -> 0 <= l_cap l ->
+  run bdec fuel o l = (l', f) -> zlen O + (zlen (l_out l') - zlen (l_out l)) < 18446744073709551616 ->
+  runr p O l l' f.
+Proof.
+  induction fuel as [|fuel IH]; intros l l' f p O C Hwf Hb Hc Hr Hlen.
+  - simpl in Hr. inversion Hr; subst. exact I.
+  - cbn [run] in Hr.
+    pose proof (iter_post bdec o l Hwf Hc) as P.
+    assert (HO : forall l1, acct l l1 -> acct l1 l' -> zlen O < 18446744073709551616).
+    { intros l1 A1 A2. unfold acct in *. lia. }
+    pose proof (iter_chunk o p O l C Hwf Hb Hc) as S.
+    destruct (iter bdec o l) as [l1 oc] eqn:EI. cbn [fst snd] in P. destruct P as [A P].
+    destruct oc as [|h|v].
+    + destruct P as [W _].
+      assert (Hc1 : 0 <= l_cap l1) by (unfold acct in A; lia).
+      pose proof (run_post bdec o fuel l1 l' f W Hc1 Hr) as (A2 & _).
+      specialize (S (HO l1 A A2)). unfold stepr in S. cbn [fst snd] in S.
+      destruct S as (x1 & y1 & S1 & S2 & S3 & S4).
+      assert (Hb1 : bytes_ok (l_src l1) = true).
+      { rewrite S1, bytes_ok_app in Hb. apply andb_prop in Hb. apply Hb. }
+      assert (Hlen1 : zlen (O ++ y1) + (zlen (l_out l') - zlen (l_out l1)) < 18446744073709551616).
+      { rewrite S2, !zlen_app. lia. }
+      pose proof (IH l1 l' f (p ++ x1) (O ++ y1) S4 W Hb1 Hc1 Hr Hlen1) as R.
+      unfold runr in *. destruct f as [h| |]; auto.
+      destruct R as (x2 & y2 & R1 & R2 & R3 & R4).
+      exists (x1 ++ x2), (y1 ++ y2).
+      split; [rewrite S1, R1; apply app_assoc|]. split; [rewrite R2, S2; symmetry; apply app_assoc|].
+      split; [rewrite bytes_ok_app, S3, R3; reflexivity|].
+      rewrite !app_assoc. exact R4.
+    + inversion Hr; subst l1 f. clear Hr.
+      assert (A2 : acct l' l') by (apply acct_refl; unfold acct in A; lia).
+      specialize (S (HO l' A A2)). exact S.
+    + inversion Hr; subst. exact I.
+Qed.
 End Chunk.
